@@ -149,6 +149,29 @@ void evalCase(Ctx &c, Rng &g) {
   xs.push_back({mk<T>(R(0)), "zero"});
   if constexpr (!ST<T>::exact) xs.push_back({(T)-0.0, "minus-zero"});
 
+  // C14: evaluation is a read - the same abscissae in two different orders
+  // (as listed, then reversed) must give bit-identical values.
+  {
+    std::vector<T> first, second(xs.size());
+    bool threw = false;
+    try {
+      for (const auto &xx : xs) first.push_back(s(xx.x));
+      for (size_t i = xs.size(); i-- > 0;) second[i] = s(xs[i].x);
+    } catch (const std::exception &) {
+      threw = true;  // reported below under C02
+    }
+    if (!threw) {
+      for (size_t i = 0; i < xs.size(); i++)
+        if (!sameBits(first[i], second[i])) {
+          c.violation("C14", "evaluation-depends-on-evaluation-order",
+                      sdesc + " x=" + model::rstr(toR<T>(xs[i].x)) + " (" +
+                          xs[i].kind + ") gave " + model::rstr(toR<T>(first[i])) +
+                          " and then " + model::rstr(toR<T>(second[i])));
+          break;
+        }
+      c.count("c14:evaluations-repeated", xs.size());
+    }
+  }
   bool nontrivial = false;
   for (const auto &xx : xs) {
     const R xr = toR<T>(xx.x);
